@@ -712,7 +712,7 @@ func VerifC19_DriverLBFGS() {
 func VerifC19_DriverNewton() {
 	l := verifParam("c19dlim", 2)
 	l2 := verifParam("c19dlim2", 1)
-	verifC19dLocal(verifC19dNewton, verifC19dOpt{fLo: l, fHi: l + 1, gHi: 1, hHi: l2, itHi: l2, initHi: 3, recLo: -2, recHi: -2, gset: verifC19dGset, hset: []float64{2, -1}})
+	verifC19dLocal(verifC19dNewton, verifC19dOpt{fLo: l, fHi: l + l2 - 1, gHi: 1, hHi: l2, itHi: l2, initHi: 3, recLo: -2, recHi: -2, gset: []float64{-2, 1}, hset: []float64{2, -1}})
 }
 
 // VerifC19_DriverNelderMead: NelderMead (no gradient), limits 1..4 evaluations.
